@@ -10,12 +10,12 @@ wt=/tmp/wt/verify-$$
 git -C /repo worktree add -q --detach $wt HEAD || exit 2
 t=ok; dw=; dwo=
 demo=$(ls $mdir/*_test.go | head -1)
-cp $demo $wt/$ddir/zz_demo_test.go
+mkdir -p $wt/$ddir; cp $demo $wt/$ddir/zz_demo_test.go
 ( cd $wt && go test -count=1 $extra ./$ddir/ >/tmp/wt/demo_without.$$ 2>&1 ) && dwo=ok || dwo=FAIL
 rm $wt/$ddir/zz_demo_test.go
 if ! git -C $wt apply $mdir/patch.diff; then echo "MUTANT $mdir patch-does-not-apply"; git -C /repo worktree remove --force $wt; exit 2; fi
 ( cd $wt && go build ./... && go test -count=1 ./... >/tmp/wt/tests.$$ 2>&1 ) && t=ok || t=FAIL
-cp $demo $wt/$ddir/zz_demo_test.go
+mkdir -p $wt/$ddir; cp $demo $wt/$ddir/zz_demo_test.go
 ( cd $wt && timeout 600 go test -count=1 $extra ./$ddir/ >/tmp/wt/demo_with.$$ 2>&1 ) && dw=ok || dw=FAIL
 git -C /repo worktree remove --force $wt
 rm -f /tmp/wt/demo_without.$$ /tmp/wt/tests.$$ 
